@@ -485,7 +485,7 @@ fn dump_body<'tcx>(tcx: TyCtxt<'tcx>, did: DefId, out: &mut String) {
                 let fty = func.ty(&body.local_decls, tcx);
                 if let ty::FnDef(d, a) = fty.kind() {
                     if let Ok(Some(ci)) = Instance::try_resolve(tcx, env, *d, a) {
-                        let _ = write!(out, ",\"res\":{},\"resk\":{}", js(&dps(tcx, ci.def_id())), js(inst_kind(&ci)));
+                        let _ = write!(out, ",\"res\":{},\"resk\":{},\"resl\":{}", js(&dps(tcx, ci.def_id())), js(inst_kind(&ci)), ci.def_id().is_local());
                         let _ = write!(out, ",\"resn\":{}", js(&with_no_trimmed_paths!(format!("{}", ci))));
                     }
                 }
